@@ -276,7 +276,11 @@ def verify_function(qualname: str, timeout_ms=20000, cross_check=False, only=Non
             env = symbolic_params(c, it, fixed)
             it.ghosts = [env[g] for g in c.ghost]
             from .values import Closure as _Closure
-            env.setdefault(fi.node.name, _Closure(fi.node, {}, name=fi.node.name, qualname=qualname))
+            try:
+                extract.find_function(qualname.rsplit(".", 1)[0])  # nested function: its own name is in scope (recursion)
+                env.setdefault(fi.node.name, _Closure(fi.node, {}, name=fi.node.name, qualname=qualname))
+            except extract.ExtractError:
+                pass
             st = State(env)
             for g, gexpr in c.where.items():
                 st.env[g] = it.ev_contract_expr(gexpr, st)
